@@ -64,6 +64,9 @@ type Scn struct {
 	// MetaOn: metadata-only receive selecting exactly the paths in Meta
 	MetaOn bool     `json:"metaon,omitempty"`
 	Meta   []string `json:"meta,omitempty"`
+	// PostYield: every successful SendMsg of the simulated stream is followed by a scheduling point before it
+	// returns (the packet is under way while its sender has not yet resumed)
+	PostYield bool `json:"postyield,omitempty"`
 }
 
 func (sc Scn) String() string {
@@ -82,6 +85,9 @@ func (sc Scn) String() string {
 	}
 	if sc.Variant != "" {
 		s += " " + sc.Variant
+	}
+	if sc.PostYield {
+		s += " late-returning-sends"
 	}
 	if sc.DiskSrc {
 		s += " disk-source"
@@ -160,6 +166,7 @@ func errstr(err error) string {
 func xferBody(sc Scn, src fsmodel.Tree, srcDir, destDir string, res *XferRes) Body {
 	return func(t *testing.T, s *Stepper, x *Exec) {
 		link := netsim.NewLink(sc.Cap)
+		link.PostYield = sc.PostYield
 		sctx, scancel := context.WithCancel(context.Background())
 		rctx, rcancel := context.WithCancel(context.Background())
 		defer scancel()
